@@ -515,7 +515,14 @@ def save_score_midi(
             # converted into a (track, channel) pair.
             key = (pg, part, note.voice)
             t_on = to_ppq(note.start.t)
-            t_off = to_ppq(note.start.t + note.duration_tied)
+            # a tied note lasts the sum of the lengths of the notes of its tie
+            # chain; these need not be adjacent on the timeline (a tie over
+            # a first ending) and the divisions may change between them, so
+            # each length is converted on its own
+            t_off = t_on + sum(
+                to_ppq(n.end.t) - to_ppq(n.start.t)
+                for n in [note] + note.tie_next_notes
+            )
             note_on = Message("note_on", note=note.midi_pitch, velocity=velocity)
             note_off = Message("note_off", note=note.midi_pitch)
             if t_on == t_off:
